@@ -81,8 +81,10 @@ impl StreamChunker {
         io_block_size: usize,
     ) -> Result<Chunk> {
         use std::io::Read;
-        // Can't do 0-byte I/O
-        let io_block_size = io_block_size.max(1);
+        // Can't do 0-byte I/O, and we must always ask for at least one
+        // byte past the (up to one byte of) carried-over prefix: otherwise
+        // re-reading the prefix alone looks like "no progress", i.e., EOF.
+        let io_block_size = io_block_size.max(2);
         while self.buf.slice().len() < 2 {
             let buf = self.buf.take();
 
